@@ -117,6 +117,11 @@ PROPS["C04"] = {
           ["SrtpContext::protect", "SrtpPacket::parse", "SrtpContext::unprotect"],
           "the bytes protect wrote are parsed by the real SrtpPacket::parse and unprotected: header fields, payload, padding and index state come back",
           bound="12-byte header, 2 payload bytes, padding 2; fixed keys", timeout=1800),
+        K("round trip with CSRC + header extension (AES_CM, 4 B payload)", "c04_roundtrip_sha80_csrc1_ext4_p4", "thorough", "bounded",
+          ["SrtpContext::protect", "SrtpContext::unprotect", "RtpHeader::write_to", "RtpHeader::encoded_len"],
+          "CSRC and extension block stay in clear in the header image and are authenticated; unprotect returns header, payload", bound="12-byte header + 1 CSRC + 4-byte one-byte-header extension block, 4 payload bytes", timeout=1800),
+        K("round trip AES_CM (8 B payload)", "c04_roundtrip_sha80_p8", "thorough", "bounded", ["SrtpContext::protect", "SrtpContext::unprotect"], "same law, larger payload", bound="12-byte header, 8 payload bytes", timeout=1800),
+        K("round trip SHA1_32 (4 B payload, 4 B padding)", "c04_roundtrip_sha32_p4_pad4", "thorough", "bounded", ["SrtpContext::protect", "SrtpContext::unprotect"], "same law under the 32-bit tag profile", bound="12-byte header, 4 payload bytes, padding 4", timeout=1800),
         K("canary: estimate_roc always returns roc", "canary_estimate_roc_always_roc", "quick", "canary", ["SrtpContext::estimate_roc"],
           "false claim, must FAIL", expect="fail"),
     ],
@@ -325,6 +330,10 @@ PROPS["C15"] = {
           "layout (ssrc, length octet, text) and parse(build(b)) == b", bound="one source, reason \"bye\"", module=RM),
         K("SDES build∘parse (literal CNAME)", "c15_sdes_roundtrip_literal_cname", "quick", "bounded", ["build_sdes_body", "parse_sdes"],
           "parse(build(s)) == s: ssrc, item type and text recovered", bound="one chunk, one item, text \"ab\"", module=RM),
+        K("SR body round trip (2 blocks)", "c15_sender_report_roundtrip_2", "thorough", "bounded", ["build_sender_report_body", "parse_sender_report"], "parse(build(sr)) == sr", bound="2 report blocks", module=RM, timeout=1200),
+        K("REMB ssrc list (3)", "c15_remb_ssrc_list_3", "thorough", "bounded", ["build_remb_body", "parse_remb_body"], "parse(build(r)) == r", bound="3 SSRC entries", module=RM, timeout=1200),
+        K("FIR round trip (3 entries)", "c15_fir_roundtrip_3", "thorough", "bounded", ["build_fir_body", "parse_fir_body"], "inverse", bound="3 FIR entries", module=RM, timeout=1200),
+        K("TWCC round trip (8-byte payload)", "c15_twcc_roundtrip_8", "thorough", "bounded", ["build_twcc_body", "parse_twcc_body"], "inverse", bound="8 payload bytes", module=RM, timeout=1200),
         K("canary: report block inverse without clamping", "canary_report_block_unclamped", "quick", "canary", ["build_report_block"], "false claim, must FAIL", expect="fail", module=RM),
     ],
 }
